@@ -855,6 +855,10 @@ pub struct C17Case {
     /// CONNACK)
     #[serde(default)]
     pub via_auth: bool,
+    /// Receive Maximum announced by the CONNACK of the resuming connection (0 = absent); it may
+    /// be smaller than the number of exchanges that are resumed
+    #[serde(default)]
+    pub r2: u16,
 }
 
 pub struct C17;
@@ -1012,6 +1016,10 @@ fn run_c17(case: &C17Case, cut: usize, o: &mut Outcome) -> Option<Failure> {
     spec2.clean_start = Some(false);
     let mut connack2 = connack.clone();
     connack2.session_present = alive;
+    if case.r2 > 0 {
+        connack2.receive_maximum = Some(case.r2);
+        o.class("resumed-under-a-small-receive-maximum");
+    }
     for a in &case.failed_attempts {
         // an attempt that does not get through: the session (if alive) must survive it
         w.tick();
@@ -1143,6 +1151,10 @@ fn run_c17(case: &C17Case, cut: usize, o: &mut Outcome) -> Option<Failure> {
                     sig: "C17/new-request-before-retransmissions".into(),
                     msg: format!("the publish issued during the outage is packet #{k} of {} on the second connection; re-sent packets follow it", got.len()),
                 })
+            }
+            // under a small Receive Maximum the resumed exchanges may leave no slot for it
+            None if case.r2 > 0 && (unacked + between) >= case.r2 as usize && w.ops[op].res == Some(OpRes::Err(ErrSum::QuotaExceeded)) => {
+                o.class("request-queued-during-outage-refused-for-quota");
             }
             None => {
                 return Some(Failure {
@@ -1481,14 +1493,20 @@ impl Property for C17 {
             any::<bool>(),
             prop_oneof![Just(Ago::Now), Just(Ago::HalfExpiry), Just(Ago::LongAfterExpiry)],
         )
-            .prop_map(|(history, expiry, connack_repeats, ago)| C17Case { history, expiry, connack_repeats, ago, queued_during_outage: false, second_outage: 0, failed_attempts: vec![], via_auth: false })
+            .prop_map(|(history, expiry, connack_repeats, ago)| C17Case { history, expiry, connack_repeats, ago, queued_during_outage: false, second_outage: 0, failed_attempts: vec![], via_auth: false, r2: 0 })
             .boxed();
-        (s, prop::bool::weighted(0.3), prop_oneof![2 => Just(0u16), 1 => 1u16..400], prop_oneof![3 => Just(vec![]), 1 => vec(0u8..4, 1..3)])
+        let s = (s, prop::bool::weighted(0.3), prop_oneof![2 => Just(0u16), 1 => 1u16..400], prop_oneof![3 => Just(vec![]), 1 => vec(0u8..4, 1..3)])
             .prop_map(|(mut c, q, so, fa)| {
                 c.queued_during_outage = q;
                 c.second_outage = so;
                 c.via_auth = fa.len() % 2 == 1 || so % 3 == 1;
                 c.failed_attempts = fa;
+                c
+            })
+            .boxed();
+        (s, prop_oneof![2 => Just(0u16), 1 => 1u16..4])
+            .prop_map(|(mut c, r2)| {
+                c.r2 = r2;
                 c
             })
             .boxed()
